@@ -16,8 +16,12 @@ use vharness::sim::run_script;
 
 fn main() {
     let args: Vec<String> = std::env::args().collect();
+    if args.len() >= 3 && args[1] == "random" {
+        return random_main(&args);
+    }
     if args.len() < 4 || args[1] != "replay" {
         eprintln!("usage: wsim replay <scripts.ndjson> <trace.ndjson> [--jobs N] [--workdir DIR]");
+        eprintln!("       wsim random <trace.ndjson> --seed S --count N --profile small|wrap|bigw|bigblk [--jobs N] [--workdir DIR]");
         std::process::exit(2);
     }
     let mut jobs = 8usize;
@@ -85,4 +89,58 @@ fn main() {
     }
     out.flush().unwrap();
     println!("scripts={} events={}", scripts.len(), n);
+}
+
+fn random_main(args: &[String]) {
+    let mut jobs = 8usize;
+    let mut workdir = PathBuf::from("../work/sim");
+    let (mut seed, mut count, mut profile) = (1u64, 10usize, "small".to_string());
+    let mut i = 3;
+    while i + 1 < args.len() {
+        match args[i].as_str() {
+            "--jobs" => jobs = args[i + 1].parse().unwrap(),
+            "--workdir" => workdir = PathBuf::from(&args[i + 1]),
+            "--seed" => seed = args[i + 1].parse().unwrap(),
+            "--count" => count = args[i + 1].parse().unwrap(),
+            "--profile" => profile = args[i + 1].clone(),
+            _ => {}
+        }
+        i += 2;
+    }
+    std::panic::set_hook(Box::new(|_| {}));
+    tftpd::verif::simulate_time(true);
+    let results: Arc<Mutex<Vec<Option<Vec<Value>>>>> = Arc::new(Mutex::new(vec![None; count]));
+    let next = Arc::new(AtomicUsize::new(0));
+    let base = workdir.join(format!("r{}", std::process::id()));
+    let mut handles = vec![];
+    for j in 0..jobs {
+        let results = results.clone();
+        let next = next.clone();
+        let dir = base.join(format!("j{j}"));
+        let profile = profile.clone();
+        handles.push(std::thread::spawn(move || loop {
+            let k = next.fetch_add(1, Ordering::SeqCst);
+            if k >= count {
+                break;
+            }
+            let evs = vharness::random::run_random(seed.wrapping_mul(1_000_003).wrapping_add(k as u64), k + 1, &profile, &dir);
+            results.lock().unwrap()[k] = Some(evs);
+        }));
+    }
+    for h in handles {
+        h.join().unwrap();
+    }
+    let _ = std::fs::remove_dir_all(&base);
+    let mut out = BufWriter::new(File::create(&args[2]).expect("trace file"));
+    let results = results.lock().unwrap();
+    let mut n = 0usize;
+    for r in results.iter() {
+        for ev in r.as_ref().unwrap() {
+            serde_json::to_writer(&mut out, ev).unwrap();
+            out.write_all(b"\n").unwrap();
+            n += 1;
+        }
+    }
+    out.flush().unwrap();
+    println!("scenarios={} events={}", count, n);
 }
